@@ -1280,7 +1280,41 @@ def r8h_dependency_edges_kept(ctx):
                 else:
                     r.ok(sample={"in": root.split("::")[-1], "predicate": meth, "asks_only": "known fixture?"})
     r.counts["predicates_over_dependencies"] = n  # no floor: a loop with an `if` instead of a filter has no such predicate
+    # the graph covers definitions of every origin: a cycle that runs through an installed fixture is a cycle of the project too
+    m = 0
+    for root in sorted(roots):
+        m += 1
+        reads = set()
+        for g in [x for x in crate.real_fns() if x.root == root]:
+            reads |= _definition_fields_read(g)
+        flags = sorted(reads & {"is_third_party", "is_plugin"})
+        key = "R8h|%s|finding builder reads an origin flag" % root
+        if flags:
+            r.violate(key, "%s reads %s of a definition: findings (cycles, scope mismatches) that involve an installed or plugin "
+                           "fixture are built differently or not at all" % (root.split("::")[-1], ", ".join(flags)))
+        else:
+            r.ok(sample={"finding builder": root.split("::")[-1], "definition fields read": sorted(reads)[:8]})
+    r.floor("functions building cycle / scope findings", m, 2)
     return r
+
+
+def _definition_fields_read(h):
+    from ..sel import _rv_places
+    reads = set()
+    for b in h.blocks:
+        places = []
+        for st in b["s"]:
+            if st[0] == "=":
+                places += [pl for pl in _rv_places(st[2]) if pl is not None]
+        if b["t"][0] == "call":
+            places += [op_place(a) for a in b["t"][1]["args"] if op_place(a) is not None]
+        elif b["t"][0] == "switch" and op_place(b["t"][1]) is not None:
+            places.append(op_place(b["t"][1]))
+        for pl in places:
+            for o, nm in proj_fields(place_projs(pl)):
+                if o.endswith("::FixtureDefinition"):
+                    reads.add(nm)
+    return reads
 
 
 def r11f_unused_report_ignores_plugin_flag(ctx):
@@ -1317,4 +1351,55 @@ def r11f_unused_report_ignores_plugin_flag(ctx):
         else:
             r.ok(sample={"unused_query": fid.split("::")[-1], "definition_fields_read": sorted(reads)})
     r.floor("unused-fixture queries", n, 1)
+    return r
+
+
+def r8i_docstring_blank_lines(ctx):
+    r = Result("R8i", "in the docstring dedenter (by role: String -> String, splits into lines and measures leading whitespace with "
+                      "trim_start) every emptiness test of a line is made on the TRIMMED line: the margin pass and the dedent pass "
+                      "must agree on what a blank line is, and a whitespace-only line shorter than the indentation must not lower "
+                      "the margin (every continuation line would keep extra leading spaces)")
+    crate = ctx.bin
+    n = 0
+    for f in crate.real_fns():
+        if f.kind not in ("fn", "method") or f.ret != "std::string::String" or f.argc < 1 or f.local_ty(1) != "std::string::String":
+            continue
+        fam = [g for g in crate.real_fns() if g.root == f.id]
+        names = {(c.get("res") or "") for g in fam for _b, c in g.calls()}
+        if not any(x.endswith("<impl str>::lines") for x in names) or not any(x.endswith("<impl str>::trim_start") for x in names):
+            continue
+        for g in fam:
+            for bb, c in g.calls():
+                if not (c.get("res") or "").endswith("<impl str>::is_empty") or c["span"][4].startswith("macro:"):
+                    continue
+                n += 1
+                trimmed = False
+                l = op_local(c["args"][0]) if c["args"] else None
+                seen = set()
+                while l is not None and l not in seen:
+                    seen.add(l)
+                    ds = g.whole_defs(l)
+                    if len(ds) != 1:
+                        break
+                    d = ds[0]
+                    if d[0] == "call":
+                        if re.search(r"<impl str>::trim(_start|_end)?$", d[2].get("res") or ""):
+                            trimmed = True
+                            break
+                        if re.search(r"Deref>?::deref$|::as_str$|::as_ref$", d[2].get("res") or "") and d[2]["args"]:
+                            l = op_local(d[2]["args"][0])
+                            continue
+                        break
+                    if d[0] == "assign" and d[3][0] == "use":
+                        l = op_local(d[3][1])
+                    elif d[0] == "assign" and d[3][0] == "ref":
+                        l = place_local(d[3][2])
+                    else:
+                        break
+                key = "R8i|%s|is_empty on an untrimmed line" % f.id
+                if trimmed:
+                    r.ok()
+                else:
+                    r.violate(key, "%s tests `is_empty()` on a line that was not trimmed (at %s)" % (f.id.split("::")[-1], crate.span_str(c["span"])))
+    r.floor("blank-line tests in the docstring dedenter", n, 2)
     return r
